@@ -239,6 +239,17 @@ def rule_e(ck, F):
         consts = [(d[1], T.ex_rv(d[3]['rv'])) for d in defs]
         falses = [bb for bb, v in consts if v == ('c', 0)]
         trues = [bb for bb, v in consts if v == ('c', 1)]
+        # the other spelling of the same update: `flag &= coord == 0` under `value != 0` alone
+        def _and_clear(v):
+            n = N.n(v)
+            if not (isinstance(n, tuple) and n[0] == 'f' and n[1] == 'BitAnd' and len(n) == 4): return False
+            ops = list(n[2:])
+            if ('v', flag) not in ops: return False
+            ops.remove(('v', flag))
+            return ops[0] in (N.op('Eq', coord, ('c', 0)), ('f', 'Eq', ('c', 0), coord), ('f', 'Eq', coord, ('c', 0)))
+        ands = [bb for bb, v in consts if _and_clear(v)]
+        and_form = len(consts) == 2 and len(ands) == 1 and len(trues) == 1 and not falses
+        if and_form: falses = ands
         if len(consts) != 2 or len(falses) != 1 or len(trues) != 1 or trues[0] in g.loops().get(_headof(g, sb), ()):
             ck.violation('E', 'E : inverse_rle : %s : definitions' % flag, where_of(b), '%s is not "true before the loop, set to false in the loop" (definitions: %s)' % (flag, [(bb, T.show(v)) for bb, v in consts])); continue
         fb = falses[0]
@@ -251,6 +262,7 @@ def rule_e(ck, F):
         want = {(('f', 'Gt', coord, ('c', 0)), True), nz}
         got = set(x for x in terms if x is not None)
         alt = {(N.op('Ne', coord, ('c', 0)), True), nz}
+        if and_form: want = alt = {nz}
         if None in terms or (got != want and got != alt) or not g.dominates(sb, fb):
             ck.violation('E', 'E : inverse_rle : %s : condition' % flag, where_of(b, fb), '%s is cleared under %s after the store; expected exactly: stored value != 0 and %s > 0' % (
                 flag, [(show(t[0]), t[1]) if t else None for t in terms], show(coord)))
